@@ -268,6 +268,26 @@ def write_marks_into(streams, c):
         streams[g].meta["ovni"]["mark"] = mk
 
 
+def definitions_conflict(per_thread):
+    """Independent of the Lean model and of the scan order: do the mark definitions of all threads
+    contradict one another (two titles or channel types for one type, two labels for one value) or is
+    one of them malformed (no title, unknown channel type)?  Such a trace must be refused."""
+    seen = {}
+    for defs in per_thread:
+        for (t, title, ct, labs) in defs:
+            if title is None or ct not in ("single", "stack"):
+                return "malformed definition of type %d" % t
+            e = seen.setdefault(t, {"title": title, "ct": ct, "labels": {}})
+            if e["title"] != title:
+                return "two titles for type %d" % t
+            if e["ct"] != ct:
+                return "two channel types for type %d" % t
+            for v, l in labs.items():
+                if e["labels"].setdefault(v, l) != l:
+                    return "two labels for value %d of type %d" % (v, t)
+    return None
+
+
 def oracle_marks(c, itl):
     """Independent statement of the property: thread row shows the mark value
     while the thread is active, CPU row while it runs there, type 100 + mark type."""
@@ -378,11 +398,14 @@ def run_emu_cases(res, prep, cases):
         probs = []
         # independent of the Lean model: consistent definitions and only legal events (values pushed,
         # popped in order, set; any value may repeat) must be emulated
+        why = definitions_conflict(c.per_thread)
+        if v == "ok" and why:
+            probs.append("contradictory mark definitions are accepted (%s)" % why)
         if v == "reject" and not c.illegal and getattr(c, "conflict", None) is None and getattr(c, "spec_ok", False):
             probs.append("a legal mark history with consistent definitions is refused: " +
                          " | ".join(l for l in err.split("\n") if "ERROR" in l)[:300])
         if v == "ok":
-            probs = oracle_marks(c, tl)
+            probs += oracle_marks(c, tl)
             # PCF: 100+type declared with the title; labels registered (merged) present
             for name in ("thread", "cpu"):
                 for ty, d in c.truth.items():
